@@ -57,6 +57,21 @@ def gen_plan(rng, i: int, tier: str) -> dict:
                         "blob": {"rk": 0, "sid": offline.SID_A, "pos": [l0 - k, rng.randrange(32), rng.randrange(32)], "mode": "nonce", "data": 3}})
         plan["family"] = "many-l0"
         return plan
+    if i % 25 == 12:
+        # several L0 epochs of one (root key, SD) fetched at the same time by caller threads (or async tasks), then each position again
+        fl = "thread" if i % 50 == 12 else "async"
+        poss = [[l0 - k, rng.randrange(32), rng.randrange(32)] for k in range(1, rng.randint(3, 4))]
+        for p in poss:
+            ops.append({"op": "unprotect", "fl": fl, "net": "online", "group": 1, "blob": {"rk": 0, "sid": offline.SID_A, "pos": p, "mode": "nonce", "data": 4}})
+        for p in poss:
+            ops.append({"op": "unprotect", "fl": rng.choice(("sync", "async")), "net": "online", "group": None,
+                        "blob": {"rk": 0, "sid": offline.SID_A, "pos": [p[0], rng.randrange(0, p[1] + 1), 0], "mode": "nonce", "data": 4}})
+        plan["family"] = "epochs-at-once"
+        if fl == "thread":
+            r = random.Random(plan["seed"])
+            # lockstep at the world's seams (so that the stores of the threads fall together) plus line-level pre-emption in between
+            plan["threads"] = {"mode": "marks", "q": r.choice((0.7, 0.9, 1.0)), "p": r.choice((0.02, 0.1, 0.3))} if r.random() < 0.7 else {"mode": "prob", "p": r.choice((0.05, 0.3))}
+        return plan
     n = rng.randint(2, 10 if tier == "thorough" else 7)
     focus_rk, focus_sid = rng.randrange(2), rng.choice(SIDS[:1] * 3 + SIDS[1:])
     g = 0
@@ -87,9 +102,20 @@ def gen_plan(rng, i: int, tier: str) -> dict:
                                  "trailing": rng.random() < 0.2, "data": rng.choice((1, 20))}})
             if cancel is not None:
                 ops[-1]["cancel_after_us"] = cancel
+            if random.Random(plan["seed"] + k).random() < 0.12:
+                # the stored record is damaged (last tag bit flipped): the call fails after the key was fetched; a later call for the same
+                # position on the same cache finds the key
+                ops[-1]["blob"]["faults"] = [["tagflip"]]
+                again = dict(ops[-1], blob={kk: vv for kk, vv in ops[-1]["blob"].items() if kk != "faults"}, group=None, fl=rng.choice(("sync", "async")))
+                again.pop("cancel_after_us", None)
+                plan.setdefault("_append_later", []).append(again)
         else:
             ops.append({"op": "protect", "fl": fl, "net": net, "group": grp, "sid": focus_sid if rng.random() < 0.8 else rng.choice(SIDS),
                         "rk": rng.choice((None, focus_rk, focus_rk)), "data": 12})
+    for extra in plan.pop("_append_later", []):
+        if extra.get("fl") == "async":
+            extra["group"] = 1000 + len(ops)
+        ops.append(extra)
     if i % 4 == 1:
         threadify(plan)
     return plan
@@ -156,12 +182,16 @@ def judge(plan, tr: P.Trace):
             return common.violation("C10", "termination", fl, out.kind, frame, hist,
                                     f"op {ot.idx} {kind} did not terminate: {out.exc}; history={[o['op'] for o in plan['ops']]}"), probes
         # ---- (2) outcome vs the fresh-cache model ------------------------------
+        damaged = kind == "unprotect" and bool((ot.blob_spec or {}).get("faults"))
         if kind == "unprotect":
             spec = ot.blob_spec
             rki, sid, pos = spec["rk"], spec["sid"], tuple(spec["pos"])
             sd = dtyp.target_sd(sid)
             rk_loaded_before = rki in loaded and loaded[rki] <= ot.invoke_seq
-            if rk_loaded_before:
+            if damaged:
+                fresh_ok = False  # (a fresh cache cannot open a record whose tag is damaged either)
+                probes["damaged_record"] = probes.get("damaged_record", 0) + 1
+            elif rk_loaded_before:
                 fresh_ok = True
             elif not online:
                 fresh_ok = False
@@ -178,6 +208,8 @@ def judge(plan, tr: P.Trace):
             pos = now
             triple = (rki, sd, now[0]) if rki is not None else None
             want_args = (sd, tr.root_keys[rki].root_key_id if rki is not None else None, -1, -1, -1)
+        if out.kind == "ok" and damaged:
+            return common.violation("C10", "wrong-result", fl, "damaged-record-opened", "", "", f"op {ot.idx}: a record with a flipped tag bit was unprotected"), probes
         if out.kind == "ok":
             if kind == "unprotect":
                 if out.value != ot.plaintext:
@@ -218,8 +250,9 @@ def judge(plan, tr: P.Trace):
                                             f"op {ot.idx} {kind} at {pos} contacted the DC {len(mine)}x although covering material was in the cache ({why}); "
                                             f"history={[(o['op'], (o.get('blob') or {}).get('pos'), o.get('net'), o.get('rk')) for o in plan['ops'][: ot.idx + 1]]}"), probes
                 probes["cache_hit_no_rpc"] = probes.get("cache_hit_no_rpc", 0) + 1
-        # ---- bookkeeping: what this op obtained -----------------------------------
-        if out.kind == "ok":
+        # ---- bookkeeping: what this op obtained (key material fetched from the DC counts even when the call then failed on
+        # a damaged record: "obtained" is about the GetKey exchange, not about the record) -----------------------------------
+        if out.kind == "ok" or (damaged and out.kind == "raise"):
             for g in mine:
                 if g.get("kind") == "seed" and g.get("hresult") == 0:
                     rid = rk_index[g["envelope_fields"]["root_key_id"]]
@@ -239,7 +272,8 @@ class C10(common.Check):
     level = "exploration"
     rule = ("case = plan of 2..10 operations on ONE shared KeyCache over {load_key, unprotect of a reference-made blob (2 root keys x 2 SIDs x "
             "current/previous L0 x positions incl. corners and DC-future), protect (root key id named or not), clock advance or step back, change of "
-            "the caller's group membership}, plus long offline histories over 17..24 L0 epochs, each offline or "
+            "the caller's group membership, unprotect of a record whose tag bit is flipped followed later by the intact one}, plus long offline "
+            "histories over 17..24 L0 epochs, plus several L0 epochs of one (root key, SD) fetched at once by caller threads / async tasks and then used again, each offline or "
             "online, sync or async; consecutive async operations of a group run concurrently under the PRNG scheduler (latencies up to 200 ms "
             "decide completion order; a caller may cancel its call at a PRNG-chosen virtual instant; connects slower than the 5 s timeout), PRNG "
             "segmentation. Oracle: termination within 300 KDF calls; outcome in the set a fresh cache (with the "
@@ -250,7 +284,7 @@ class C10(common.Check):
                   "security context": "stub (StubCtx)", "reference model": "analytic fresh-cache model + ref.cms/ref.gkdi"}
     assumptions = ["'fresh cache' = a new KeyCache holding the root keys loaded so far", "two overlapping operations may both fetch: RPC economy is judged only for operations invoked after the covering one returned (global event sequence numbers)"]
     required_fired = ("cache_hit_no_rpc", "cache_made_it_possible", "legit_failure", "concurrent_groups", "covered_op", "identity_change", "many_l0", "slowconn", "cancelled_by_caller",
-                      "thread_groups", "thread_overlap", "thread_obtained")
+                      "thread_groups", "thread_overlap", "thread_obtained", "damaged_record", "epochs_at_once")
 
     def cases(self, tier, seed):
         rng = prng.stream(seed, "C10")
@@ -268,6 +302,7 @@ class C10(common.Check):
         conc = sum(1 for v in groups.values() if v > 1)
         probes["concurrent_groups"] = conc
         probes["many_l0"] = int(case.get("family") == "many-l0")
+        probes["epochs_at_once"] = int(case.get("family") == "epochs-at-once")
         probes["thread_groups"] = sum(1 for g_, v in groups.items() if v > 1 and any(o.get("group") == g_ and o.get("fl") == "thread" for o in case["ops"]))
         probes["thread_overlap"] = st.get("toverlap", 0)
         sched = common.key_hash(tr.schedule)
